@@ -18,12 +18,67 @@ open Iauthd
 
 def entriesOf (l : List Child) : List Entry := l.map Child.entry
 
+/-- the key has no '.' (log_parse_type_sevset returns 1: the entry is skipped) -/
+def noDot (k : Bytes) : Prop := (splitAtByte 46 k).2 = none
+
+theorem entryOps_noDot {e : Entry} (h : noDot e.key) : entryOps e = [] := by
+  unfold entryOps parseKeyFull
+  rw [h]
+
+theorem lower_eq_dot {c : UInt8} : Bytes.lower c = 46 ↔ c = 46 := by
+  constructor
+  · intro h
+    unfold Bytes.lower at h
+    split at h
+    · rename_i hc
+      have := congrArg UInt8.toNat h
+      rw [UInt8.toNat_add] at this
+      have e1 : (32 : UInt8).toNat = 32 := rfl
+      have e2 : (46 : UInt8).toNat = 46 := rfl
+      omega
+    · exact h
+  · rintro rfl; decide
+
+theorem noDot_congr : ∀ {a b : Bytes}, ciEq a b = true → (noDot a ↔ noDot b)
+  | [], [], _ => Iff.rfl
+  | [], _ :: _, h => by simp [ciEq] at h
+  | _ :: _, [], h => by simp [ciEq] at h
+  | x :: xs, y :: ys, h => by
+    rw [ciEq_iff] at h
+    simp only [List.map_cons, List.cons.injEq] at h
+    have ih := noDot_congr (a := xs) (b := ys) (ciEq_iff.mpr h.2)
+    have hxy : x = 46 ↔ y = 46 := by rw [← lower_eq_dot, h.1, lower_eq_dot]
+    unfold noDot at ih ⊢
+    unfold splitAtByte
+    by_cases hx : x = 46
+    · have hy := hxy.mp hx
+      simp [hx, hy]
+    · have hy : ¬ y = 46 := fun e => hx (hxy.mpr e)
+      simp only [hx, hy, if_false]
+      exact ih
+
+theorem childCmp_zero {a b : Child} (h1 : ¬ childCmp a b > 0) (h2 : ¬ childCmp a b < 0) : ciEq a.name b.name = true := by
+  unfold childCmp at h1 h2
+  cases hc : ciEq a.name b.name with
+  | true => rfl
+  | false =>
+    simp only [hc, Bool.false_eq_true, if_false] at h1 h2
+    split at h1 <;> split at h2 <;> omega
+
+
 /-- plain string child: `parsed.p_string` is NULL or points at the current value -/
 def CacheOK (t : Child) : Prop :=
   t.kind = .str → t.reg = false → (t.cached = none ∨ ∃ v, t.values = [v] ∧ t.cached = some v)
 
-/-- the only registered child is the string `verbose_timestamp` -/
-def RegOK (t : Child) : Prop := t.reg = true → t.name = bVts ∧ t.kind = .str
+/-- the only registered child is the string `verbose_timestamp`, whatever letter case the last
+    file used for it: a name without '.', which the rescan skips -/
+def RegOK (t : Child) : Prop := t.reg = true → noDot t.name ∧ t.kind = .str
+
+theorem noDot_bVts : noDot bVts := by unfold noDot; decide
+
+/-- the entry takes the file's spelling: still a registered name without '.' -/
+theorem RegOK.rename {t : Child} (h : RegOK t) {nm : Bytes} (hc : ciEq t.name nm = true) :
+    RegOK ({ t with name := nm } : Child) := fun hr => ⟨(noDot_congr hc).mp (h hr).1, (h hr).2⟩
 
 /-- a child of the live tree between two loads -/
 structure ChildOK (t : Child) : Prop where
@@ -102,9 +157,7 @@ theorem entryOps_vts (vals : List Bytes) : entryOps ⟨bVts, vals⟩ = [] := by
 theorem entryOps_reg {t : Child} (h : RegOK t) (hr : t.reg = true) (vals : List Bytes) :
     entryOps ({ t with values := vals } : Child).entry = [] ∧ entryOps t.entry = [] := by
   have := (h hr).1
-  constructor
-  · simp only [Child.entry, this]; exact entryOps_vts _
-  · simp only [Child.entry, this]; exact entryOps_vts _
+  exact ⟨entryOps_noDot this, entryOps_noDot this⟩
 
 theorem fire_of_exit {co : Bytes → Bool} {run : Run} (h : run.exit.isSome = true) (view : List Child) :
     fire co run view = run := by
@@ -179,8 +232,7 @@ theorem PreOK_hookIf {f m m' : Bool} {l : List Child} (h : ∀ t ∈ l, PreOK m 
 
 theorem hookIf_nil (f : Bool) : hookIf f ([] : List Child) = [] := by unfold hookIf; split <;> rfl
 
-theorem entryOps_of_name {c : Child} (h : c.name = bVts) : entryOps c.entry = [] := by
-  simp only [Child.entry, h]; exact entryOps_vts _
+theorem entryOps_of_name {c : Child} (h : noDot c.name) : entryOps c.entry = [] := entryOps_noDot h
 
 /-! ### one child reverted / updated -/
 
@@ -197,7 +249,7 @@ theorem revert_spec {co : Bytes → Bool} {o : LogSt} {ol : List Child} {run : R
     cases hreg : t.reg with
     | true =>
       simp only [hreg, if_true] at h
-      have hname : t.name = bVts := (ht.reg hreg).1
+      have hname : noDot t.name := (ht.reg hreg).1
       by_cases hv : run.st.vts = true
       · simp only [hv, if_true, Prod.mk.injEq] at h
         obtain ⟨rfl, rfl, rfl, rfl⟩ := h
@@ -270,10 +322,10 @@ theorem update_spec {co : Bytes → Bool} {o : LogSt} {ol : List Child} {run : R
       cases hreg : t.reg with
       | true =>
         simp only [hreg, if_true] at h
-        have hname : t.name = bVts := (ht.reg hreg).1
+        have hname : noDot t.name := (ht.reg hreg).1
         have hops : ∀ c : Child, c.name = t.name → entryOps c.entry = entryOps t.entry := by
           intro c hc
-          rw [entryOps_of_name (c := t) hname, entryOps_of_name (hc.trans hname)]
+          rw [entryOps_of_name (c := t) hname, entryOps_of_name (c := c) (by rw [hc]; exact hname)]
         cases hb : parseBool v with
         | none =>
           simp only [hb, Prod.mk.injEq] at h
@@ -394,11 +446,21 @@ theorem walk_spec (co : Bytes → Bool) (o : LogSt) (ol : List Child)
     · exact hss
   | case6 run pre modified fired t ts' s ss' hc1 hc2 run1 t' f h ih =>
     intro hp hts hpre hss
-    obtain ⟨hp1, hc, hr, hh⟩ := update_spec hp (hts t (List.mem_cons_self ..)) h
+    have hci := childCmp_zero hc1 hc2
+    have htk := hts t (List.mem_cons_self ..)
+    have htr : ChildOK ({ t with name := s.name } : Child) := ⟨htk.hook, htk.cache, htk.reg.rename hci⟩
+    -- the entry respelled: either nothing changed, or the membership counts as changed
+    have hp' : P o ol run (pre ++ ({ t with name := s.name } : Child) :: ts') (modified || t.name != s.name) := by
+      by_cases hren : t.name = s.name
+      · have e : ({ t with name := s.name } : Child) = t := by cases t; simp_all
+        rw [e]; simpa [hren] using hp
+      · have : (modified || t.name != s.name) = true := by simp [hren]
+        rw [this]; exact P.of_modified _ hp.wf
+    obtain ⟨hp1, hc, hr, hh⟩ := update_spec hp' htr h
     apply ih
     · rw [List.append_assoc] at hp1 ⊢; exact hp1
     · exact ChildOK_hookIf (fun x hx => hts x (List.mem_cons_of_mem _ hx))
-    · exact PreOK_step hpre id (by intro k hk; rw [List.mem_singleton.mp hk]; exact ⟨hc, hr, hh⟩)
+    · exact PreOK_step hpre (by intro e; simp [e]) (by intro k hk; rw [List.mem_singleton.mp hk]; exact ⟨hc, hr, hh⟩)
     · intro x hx; exact hss x (List.mem_cons_of_mem _ hx)
 
 /-! ### a whole load -/
@@ -708,57 +770,10 @@ theorem sound_of_reach {co : Bytes → Bool} {c : ConfSt} (h : Reach co c) : Sou
 
 /-! ### F25 at the level of loads: when no reload can end in LOG_FATAL -/
 
-/-- the key has no '.' (log_parse_type_sevset returns 1: the entry is skipped) -/
-def noDot (k : Bytes) : Prop := (splitAtByte 46 k).2 = none
-
-theorem entryOps_noDot {e : Entry} (h : noDot e.key) : entryOps e = [] := by
-  unfold entryOps parseKeyFull
-  rw [h]
-
 theorem att_mem_entryOps {e : Entry} {f v : Bytes} {s : Nat} (h : Op.att f s v ∈ entryOps e) : v ∈ e.values := by
   have : Op.att f s v ∈ sectionOps [e] := by simpa [sectionOps] using h
   obtain ⟨e', he', _, _, _, hv⟩ := mem_sectionOps_att.mp this
   rw [List.mem_singleton.mp he'] at hv; exact hv
-
-theorem lower_eq_dot {c : UInt8} : Bytes.lower c = 46 ↔ c = 46 := by
-  constructor
-  · intro h
-    unfold Bytes.lower at h
-    split at h
-    · rename_i hc
-      have := congrArg UInt8.toNat h
-      rw [UInt8.toNat_add] at this
-      have e1 : (32 : UInt8).toNat = 32 := rfl
-      have e2 : (46 : UInt8).toNat = 46 := rfl
-      omega
-    · exact h
-  · rintro rfl; decide
-
-theorem noDot_congr : ∀ {a b : Bytes}, ciEq a b = true → (noDot a ↔ noDot b)
-  | [], [], _ => Iff.rfl
-  | [], _ :: _, h => by simp [ciEq] at h
-  | _ :: _, [], h => by simp [ciEq] at h
-  | x :: xs, y :: ys, h => by
-    rw [ciEq_iff] at h
-    simp only [List.map_cons, List.cons.injEq] at h
-    have ih := noDot_congr (a := xs) (b := ys) (ciEq_iff.mpr h.2)
-    have hxy : x = 46 ↔ y = 46 := by rw [← lower_eq_dot, h.1, lower_eq_dot]
-    unfold noDot at ih ⊢
-    unfold splitAtByte
-    by_cases hx : x = 46
-    · have hy := hxy.mp hx
-      simp [hx, hy]
-    · have hy : ¬ y = 46 := fun e => hx (hxy.mpr e)
-      simp only [hx, hy, if_false]
-      exact ih
-
-theorem childCmp_zero {a b : Child} (h1 : ¬ childCmp a b > 0) (h2 : ¬ childCmp a b < 0) : ciEq a.name b.name = true := by
-  unfold childCmp at h1 h2
-  cases hc : ciEq a.name b.name with
-  | true => rfl
-  | false =>
-    simp only [hc, Bool.false_eq_true, if_false] at h1 h2
-    split at h1 <;> split at h2 <;> omega
 
 /-- a child whose presence in the tree cannot make a rescan fail -/
 def ValOK (co : Bytes → Bool) (t : Child) : Prop :=
@@ -860,7 +875,7 @@ theorem VR_update {co : Bytes → Bool} {t s : Child} (ht : ValOK co t ∧ RegOK
       · exact Or.inr (Or.inr (fun v hv' => h' v (hv v hv')))
   · intro hreg
     have := ht.2 (hr ▸ hreg)
-    exact ⟨hn.trans this.1, hk.trans this.2⟩
+    exact ⟨hn ▸ this.1, hk.trans this.2⟩
 
 theorem update_alive {co : Bytes → Bool} {run : Run} {pre rest : List Child} {t s : Child}
     (hr : run.exit = none) (hv : ∀ x ∈ pre ++ t :: rest, ValOK co x ∧ RegOK x)
@@ -978,7 +993,20 @@ theorem walk_alive (co : Bytes → Bool) (run : Run) (pre ts ss : List Child) (m
     · exact hss
   | case6 run pre modified fired t ts' s ss' hc1 hc2 run1 t' f h ih =>
     intro hr hv hss
-    obtain ⟨hr1, hk⟩ := update_alive hr hv (hss s (List.mem_cons_self ..)) (childCmp_zero hc1 hc2) h
+    have hci := childCmp_zero hc1 hc2
+    have hv' : ∀ x ∈ (pre ++ ({ t with name := s.name } : Child) :: ts'), ValOK co x ∧ RegOK x := by
+      intro x hx
+      rcases List.mem_append.mp hx with h1 | h1
+      · exact hv x (List.mem_append.mpr (Or.inl h1))
+      · rcases List.mem_cons.mp h1 with rfl | h2
+        · have ht := hv t (by simp)
+          refine ⟨?_, ht.2.rename hci⟩
+          rcases ht.1 with h3 | h3 | h3
+          · exact Or.inl h3
+          · exact Or.inr (Or.inl ((noDot_congr hci).mp h3))
+          · exact Or.inr (Or.inr h3)
+        · exact hv x (List.mem_append.mpr (Or.inr (List.mem_cons_of_mem _ h2)))
+    obtain ⟨hr1, hk⟩ := update_alive hr hv' (hss s (List.mem_cons_self ..)) (ciEq_refl s.name) h
     apply ih hr1
     · exact VR_step (fun x hx => hv x (List.mem_append.mpr (Or.inl hx)))
         (by intro x hx; rw [List.mem_singleton.mp hx]; exact hk)
